@@ -17,16 +17,6 @@ Theorem cpp_des_ptr_in_bounds capB t prior buf : wf_ty t = true -> length buf = 
   forallb (ptr_ok capB) (snd (walk_des_safe (cpp_cfg true) t prior buf)) = true.
 Proof. apply (des_ptr_in_bounds (cpp_cfg true) (cpp_cfg_sound true)). reflexivity. Qed.
 
-(* any_bitspan::subspan() as it is: data_.data() + offset_bytes with offset_bytes > size (F-CPP-PTR-PAST-END) *)
-Theorem cpp_des_ptr_in_bounds_refuted :
-  exists t prior buf capB, wf_ty t = true /\ length buf = 8 * capB /\
-    forallb (ptr_ok capB) (snd (walk_des_safe (cpp_cfg false) t prior buf)) = false.
-Proof.
-  exists (TComp false [TPrim (PU 64 true); TComp false [TPrim (PU 8 true); TPrim (PU 8 true)] None] None), dflt,
-         (bits_of_bytes [1; 2]%N), 2.
-  split; [reflexivity|]. split; [reflexivity | vm_compute; reflexivity].
-Qed.
-
 (* =====================================================  variable-length array  ===================================================== *)
 Section VlaSound.
   Variable A : Type.
